@@ -39,7 +39,7 @@ func TestOpenAPI(t *testing.T) {
 	n := rt.EnvInt("VERIF_CHECKS", 32)
 	seed := rt.EnvInt("VERIF_SEED", 1)
 	sess, built := rt.Prepare(t, "c07", rt.Options{Profile: gen.Routes(), N: n, Seed: seed, Keep: keep, AvoidIfOpen: []string{"C07-exclusive-bounds-as-numbers", "C07-openapi2-response-header-go-type-names", "C07-uint32-documented-as-int32", "C07-yaml-drops-leading-newline-in-description"},
-		Extra: []*m.Design{gen.ParamMatrix(), gen.VerbMatrix()}})
+		Extra: []*m.Design{gen.ParamMatrix(), gen.VerbMatrix(), gen.StreamMatrix()}})
 	defer sess.Close()
 	defer rt.CloseAll(built)
 	if len(built) == 0 {
@@ -514,6 +514,11 @@ func checkOperation(d *m.Design, s *m.Service, meth *m.Method, o *openapi3.Opera
 			hasBody = len(gen.BodyAttrs(d, meth)) > 0
 		}
 	}
+	if meth.Streaming != "" {
+		// a websocket endpoint has no HTTP request body (the payload travels in
+		// path, query and headers of the upgrade request)
+		hasBody = false
+	}
 	if (o.RequestBody != nil) != hasBody {
 		msgs = append(msgs, fmt.Sprintf("requestBody documented=%v, the server expects a body=%v", o.RequestBody != nil, hasBody))
 	}
@@ -524,6 +529,10 @@ func checkOperation(d *m.Design, s *m.Service, meth *m.Method, o *openapi3.Opera
 	}
 	for _, r := range h.Responses {
 		wantCodes[fmt.Sprint(r.Status)] = true
+	}
+	if meth.Streaming != "" {
+		// the success response of a streaming endpoint is documented as 101 Switching Protocols
+		wantCodes = map[string]bool{"101": true}
 	}
 	find := func(name string) *m.ErrorResponse {
 		for _, l := range [][]*m.ErrorResponse{h.ErrorResp, s.ErrorResp, d.API.ErrorResp} {
